@@ -174,6 +174,16 @@ CLAIMS = {
         "One event per step is recorded and TLC validates the recorded trace against Trace_AllocFault.tla; events whose action is not ENABLED are the violations.",
    note="quick: up to 260 single indices per operation + 20 multi-fault sets; thorough: up to 6000 + 200. Leaks are decided by LeakSanitizer's recoverable check after freeing the objects of the operation.",
    technique="trace validation by TLC of recorded allocation-fault experiments (link-time malloc interposition + LeakSanitizer) against an explicit experiment model"),
+ "C12": dict(level="exploration", design_ref="DESIGN.md 4/C12",
+   text="Mutation.tla defines the ways an untrusted byte string can differ from a well-formed TLV object as mutation operators over the object's node spans (every truncation, "
+        "every byte +-1, every bit flipped, every length field set to each boundary class, every node deleted / duplicated / re-flagged / re-tagged / emptied, bytes appended). "
+        "For every seed (reference-built signatures in all forms incl. maximal legacy ids and metadata paddings, aggregation / extension / config / error PDUs of both versions, a "
+        "really signed publications file, repository sample files) TLC enumerates the mutations of that seed's structure; each is applied to the real bytes and fed to the matching "
+        "entry point of the ASan+UBSan+LSan build, followed by everything a caller may do with a parsed object (serialize, clone, verify under three policies, identity extraction, "
+        "string rendering, lookups), at two log levels in the thorough tier. Publication strings, URIs and hash-algorithm names get character-level mutations. Oracle: no sanitizer "
+        "report, no leak, no hang, and a good object is still handled correctly afterwards.",
+   note="Exploration only: memory safety for all byte strings of length 0..70000 is not something a TLA+ model decides; TLC supplies a systematic input space, the sanitizers give the verdict. Not coverage-guided (the brief fixes the technique family).",
+   technique="TLC-enumerated structure-aware mutations of model-built and repository seeds replayed into every parser entry point and the post-parse operations under ASan/UBSan/LSan"),
 }
 for e in ENGINES:
     e["serves_properties"] = sorted(CLAIMS)
